@@ -35,6 +35,9 @@ P = {
  "C03": ("model_checking", "EventStore.tla read operators as oracle; histories replayed on a real Database and every scan/lookup compared",
          "Histories generated from the model are built on a real Database with layouts that straddle 64 KiB blocks and 128 KiB..1 MiB segments; every stream and partition is scanned from every start position (0..len+2, u64::MAX), both directions, batch sizes 1,2,3,7,50, in the live segment, across sealed segments and after reopen, and compared with the model's operators with exactly the latitude the statement gives for reverse scans.",
          "Start positions are sampled for logs longer than 24 events in intermediate checks (dense at the end of each history).", "5/C03", "h-store"),
+ "C01": ("model_checking", "Durability.tla (sync/ack/rollover protocol) model-checked by TLC; hook-recorded traces of real runs validated by TLC against TraceDurability.tla",
+         "TLC explores Durability.tla exhaustively (AckedDurable, AckedPublished, PublishedFindable, ReaderNeverMisses, PublishedMonotone). Real runs (EventStore-generated histories incl. rejected/failed appends, rollovers, 4 concurrent clients, close+reopen; sync-per-append vs timer sync, compression on/off) are recorded through cfg-gated hooks at fsync/publish/reply/rollover points plus client-side acknowledgements and read-after-ack results; TLC replays the trace line by line through the specification's actions and evaluates every invariant in every state; reads right after each acknowledgement and after reopen are also compared with the reference model.",
+         "fsync observed at the hook after File::sync_data returns; traces are single-bucket; byte offsets are converted to the model's unit (completed transactions) before validation.", "5/C01", "h-store"),
 }
 
 NOT_YET = "not yet built in this session (planned: see DESIGN.md section 5); no claim is made"
